@@ -9,7 +9,8 @@ from ..cfg import CFG
 from ..core import AnalysisError, const_value
 from ..defuse import DefUse, Terms, show, walk_term
 from ..defuse import key as tkey
-from ..tutil import np_call, strip_conv
+from ..tutil import (base_of, bound_args, callee_of, norm_calls, np_call,
+                     strip_conv)
 
 EXPLANATION = (
     "Static analysis of brew.make_train_sets, brew.brew, brew._predict, "
@@ -704,64 +705,98 @@ def _parse_in_chunks(ctx):
     prog = ctx.prog
     g = prog.func("mokapot.parsers.pin.get_rows_from_dataframe")
     p_idx, p_chunk, p_train, p_psms, p_file = g.params
-    loops = [n for n in ast.walk(g.node) if isinstance(n, ast.For)
-             and ast.unparse(n.iter) == f"enumerate({p_idx})"]
-    ctx.require(len(loops) == 1, f"{g.qual}: loop over the folds' index "
-                "lists not found")
-    lp = loops[0]
-    k, tr = (e.id for e in lp.target.elts)
-    apps = [n for n in ast.walk(lp) if isinstance(n, ast.Call)
-            and isinstance(n.func, ast.Attribute)
-            and n.func.attr == "append"]
     du = DefUse(prog, g)
     T = Terms(du)
+    apps = [n for n in ast.walk(g.node) if isinstance(n, ast.Call)
+            and isinstance(n.func, ast.Attribute)
+            and n.func.attr == "append" and len(n.args) == 1]
     ok = False
     why = f"{[ast.unparse(a)[:80] for a in apps]}"
     if len(apps) == 1:
         a = apps[0]
-        recv = ast.unparse(a.func.value)
-        val = T.of(a.args[0])
+        recv = base_of(T.of(a.func.value))
+        val = norm_calls(prog, T.of(a.args[0]))
+        K = ("idx", ("param", p_idx))
+        recv_ok = recv == ("sub", ("sub", ("param", p_train),
+                                   ("param", p_file)), K)
         sel_ok = False
         if val[0] == "sub" and val[1][0] == "attr" and val[1][2] == "loc":
-            sel = tkey(val[2], 300)
-            sel_ok = (f"set(elem(enumerate({p_idx}))" in sel or
-                      "set(" in sel) and "chunk.index" in sel.replace(
-                          p_chunk, "chunk") and "&" in sel
-            # the selected labels are an intersection with the fold's list
-            inter = [x for x in walk_term(val[2]) if x[0] == "bin"
-                     and x[1] == "&"]
-            sel_ok = bool(inter) and any(
-                ("elem" in tkey(x[2], 200) or "elem" in tkey(x[3], 200))
-                for x in inter)
-        ok = recv == f"{p_train}[{p_file}][{k}]" and sel_ok
+            frame = val[1][1]
+            conv = bound_args(prog, frame)
+            frame_ok = conv is not None and \
+                frame[1] == "mokapot.utils.convert_targets_column" and \
+                conv.get("data") == ("param", p_chunk)
+            sel = val[2]
+            while sel[0] == "call" and sel[1] in (
+                    "builtins.list", "builtins.sorted") and len(sel[2]) == 1:
+                sel = sel[2][0]
+            if sel[0] == "bin" and sel[1] == "&":
+                def setof(x):
+                    return ("call", "builtins.set", (x,), ())
+                sides = {sel[2], sel[3]}
+                sel_ok = frame_ok and sides == {
+                    setof(("elem", ("param", p_idx))),
+                    setof(("attr", frame, "index"))}
+        ok = recv_ok and sel_ok
+        why = (f"appends {show(val, 160)} to {show(recv, 80)}")
     ctx.check(ok, "C02b-training-rows-by-index", g,
               "rows appended to training set k of a file are that file's "
               "chunk rows whose index is in training index list k",
-              why, node=lp)
+              why, node=apps[0] if apps else g.node)
     pic = prog.func("mokapot.parsers.pin.parse_in_chunks")
-    loops = [n for n in ast.walk(pic.node) if isinstance(n, ast.For)]
-    ok_l = False
-    if loops:
-        it = ast.unparse(loops[0].iter)
-        ok_l = it == "zip(psms, zip(*train_idx), range(len(psms)))"
+    pT = Terms(DefUse(prog, pic), phi_vars=True)
+    p_ps, p_tr = pic.params[0], pic.params[1]
     task = [n for n in ast.walk(pic.node) if isinstance(n, ast.Call)
             and isinstance(n.func, ast.Call)
             and ast.unparse(n.func) == "delayed(get_rows_from_dataframe)"]
     ok_a = False
-    if len(task) == 1 and loops:
-        names = [e.id for e in loops[0].target.elts]
-        ok_a = [ast.unparse(a) for a in task[0].args] == [
-            names[1], "chunk", "train_psms", names[0], names[2]]
-    ctx.check(ok_l and ok_a, "C02b-file-fold-transposition", pic,
+    why = "task not found"
+    TRAIN = None
+    ZT = ("call", "builtins.zip", (("star", ("param", p_tr)),), ())
+    if len(task) == 1:
+        b = {k: pT.of(v) for k, v in prog.bind(g, task[0]).items()}
+        ti, tp, tf = b.get(p_idx), b.get(p_psms), b.get(p_file)
+        TRAIN = b.get(p_train)
+        why = str({k: show(v, 80) for k, v in b.items()})
+        if ti and tp and tf and ti[0] == "zipelem" and tp[0] == "zipelem" \
+                and ti[2] == tp[2] and ti[2][ti[1]] == ZT and \
+                tp[2][tp[1]] == ("param", p_ps):
+            Z = ti[2]
+            rng = ("call", "builtins.range",
+                   (("call", "builtins.len", (("param", p_ps),), ()),), ())
+            file_ok = (tf[0] == "zipelem" and tf[2] == Z
+                       and Z[tf[1]] == rng) or tf == (
+                "idx", ("call", "builtins.zip", Z, ()))
+            # the chunk comes from the same file's reader
+            ch = b.get(p_chunk)
+            chunk_ok = ch is not None and ch[0] == "elem" and any(
+                x == ("attr", tp, "filename") for x in walk_term(ch))
+            ok_a = file_ok and chunk_ok
+    ctx.check(ok_a, "C02b-file-fold-transposition", pic,
               "file j is read with the per-fold index lists of file j "
               "(zip(*train_idx) transposes [fold][file] to [file][fold])",
-              "the pairing of files, index lists and file numbers changed",
-              node=pic.node)
-    rets = [n for n in ast.walk(pic.node) if isinstance(n, ast.Return)]
-    ok_r = len(rets) == 1 and ast.unparse(rets[0].value) == \
-        "[pd.concat(df) for df in zip(*train_psms_reordered)]"
+              "the pairing of files, index lists and file numbers changed: "
+              + why, node=task[0] if task else pic.node)
+    rets = [t for _r, t in pT.returns()]
+    ok_r = False
+    if len(rets) == 1 and rets[0][0] == "comp" and len(rets[0][3]) == 1 \
+            and not rets[0][3][0][2]:
+        it = rets[0][3][0][1]
+        elt = callee_of(rets[0][2])
+        if elt and elt[0] == "pandas.concat" and elt[1] == [("elem", it)] \
+                and it[0] == "call" and it[1] == "builtins.zip" and \
+                len(it[2]) == 1 and it[2][0][0] == "star":
+            par = it[2][0][1]
+            rc = [x for x in walk_term(par) if isinstance(x, tuple) and x
+                  and x[0] == "call" and x[1] ==
+                  "mokapot.parsers.pin.concat_and_reindex_chunks"]
+            if rc and TRAIN is not None:
+                rb = bound_args(prog, rc[0])
+                pair = (TRAIN, ZT)
+                ok_r = rb.get("df") == ("zipelem", 0, pair) and \
+                    rb.get("orig_idx") == ("zipelem", 1, pair)
     ctx.check(ok_r, "C02b-training-frames-per-fold", pic,
               "the result has one training frame per fold (files "
-              "concatenated), in fold order",
-              f"{[ast.unparse(r.value)[:100] for r in rets]}",
-              node=pic.node)
+              "concatenated), in fold order; each file's rows are re-"
+              "ordered by that file's own index lists",
+              f"{[show(r, 200) for r in rets]}", node=pic.node)
